@@ -492,6 +492,10 @@ def run(ctx: Ctx) -> None:
                         "(`if cond: def f(): ..`) has an indented source, and parsing it as it stands raises IndentationError where plain execution returns a value")
     n19 = sources_dedented(ctx, "C01.R19")
     rep.floor("C01.R19", n19, 4)
+    if rep.prop == "C01":
+        from .common import share_rules
+        share_rules(ctx, "C14", "C01.R22", ["C14.R1"], "a variable / function of an accepted module is tracked whatever the depth of the module and the way the package was accepted: the "
+                    "authorisation test enumerates every prefix of the module path, the whole path included (else the object is tracked by name only and its edits are not seen)")
     from .common import forwarding_complete
     rep.rule("C01.R21", "the public entry points, the decorators' wrappers and the internal API hand over the user's `*args` and `**kwargs` together: no argument is dropped between the "
                         "user's call and the binder / the user function")
